@@ -108,15 +108,31 @@ def invert_topology(
 
 def _invert_topology_at_store(
         update: Update,
-        args: Tuple[Store],
+        args: Tuple[Store, int],
 ) -> State:
     """Like :py:func:`invert_topology`, for the process held by a store.
 
     The path is the one the store has when the function is called.
     """
-    store, = args
+    store, outside = args
+    # (the engine may run one compartment of a larger tree: its paths
+    # start at its own state, `outside` levels below the top)
     return inverse_topology(
-        store.path_for()[:-1], update, store.topology)
+        store.path_for()[outside:-1], update, store.topology)
+
+
+def _emit_settings(schema: dict) -> dict:
+    """The part of a store schema that sets ``_emit`` flags."""
+    settings = {}
+    for key, value in schema.items():
+        if key == '_emit':
+            settings[key] = value
+        elif isinstance(value, dict) and (
+                key == '*' or not str(key).startswith('_')):
+            inner = _emit_settings(value)
+            if inner:
+                settings[key] = inner
+    return settings
 
 
 def timestamp(dt: Optional[Any] = None) -> str:
@@ -473,8 +489,11 @@ class Engine:
             # and the views are built from what is there now.
             self.state._apply_subschemas()
             # (re-applying the sub-schemas to the existing children must
-            # not undo the settings of store_schema: it has the last word)
-            self.state._apply_config(store_schema)
+            # not undo the emit settings of store_schema: it has the
+            # last word)
+            emit_settings = _emit_settings(store_schema)
+            if emit_settings:
+                self.state._apply_config(emit_settings)
             self.state.apply_defaults()
             self.state.build_topology_views()
 
@@ -1316,11 +1335,10 @@ def _process_update(
 
     # The update is relative to where the process is when the update is
     # applied: its compartment may be moved while the update is awaited.
-    _ = path
     absolute = Defer(
         process,
         _invert_topology_at_store,
-        (store,))
+        (store, len(store.path_for()) - len(path)))
 
     return absolute, store
 
